@@ -652,9 +652,32 @@ fn nested_brackets_text(rng: &mut Rng) -> String {
     v.iter().map(|c| c.to_string()).collect::<Vec<_>>().join(sep)
 }
 
+fn stretch(text: String, rng: &mut Rng) -> String {
+    let chars: Vec<char> = text.chars().collect();
+    let cands: Vec<usize> = (0..chars.len()).filter(|&i| !chars[i].is_whitespace()).collect();
+    let (at, c) = if cands.is_empty() || rng.chance(1, 4) {
+        (rng.below(chars.len() + 1), *rng.pick(&[',', ';', 'a', 'b']))
+    } else {
+        let i = *rng.pick(&cands);
+        (i, chars[i])
+    };
+    let between: &str = match rng.below(4) { 0 => " ", 1 => "b", 2 => "a ", _ => "" };
+    let k = 8 + rng.below(11);
+    let mut out: String = chars[..at].iter().collect();
+    for _ in 0..k {
+        out.push(c);
+        out.push_str(between);
+    }
+    out.extend(chars[at..].iter());
+    out
+}
+
 fn mk(text: String, rng: &mut Rng, g: G) -> Case {
     // two thirds of the texts are derived from the grammar itself
     let text = if rng.chance(2, 3) { derived_text(&g, rng) } else { text };
+    // one case in twelve: a long run (8..=18) of one of the text's tokens, alone or alternating with
+    // another token (retry budgets, counters, runs of recovery points)
+    let text = if rng.chance(1, 12) { stretch(text, rng) } else { text };
     // a third of the cases run under other metrics and with line structure in the text
     let (le, tab, text) = if rng.chance(1, 3) {
         let le = *rng.pick(LINE_ENDINGS);
